@@ -213,6 +213,7 @@ fn run_in(case: &C14Case, nu: &mut Nu) -> Result<CaseInfo, Fail> {
         .bursts
         .iter()
         .map(|b| WriterSpec {
+            remove_lag: None,
             start_delay_us: 0,
             frames: b
                 .iter()
@@ -249,6 +250,7 @@ fn run_in(case: &C14Case, nu: &mut Nu) -> Result<CaseInfo, Fail> {
     if case.big_burst > 0 {
         for _ in 0..2 {
             writers.push(WriterSpec {
+                remove_lag: None,
                 start_delay_us: 0,
                 frames: (0..case.big_burst / 2).map(|_| (fspec("trig", hctx, None, None), 0)).collect(),
             });
